@@ -80,14 +80,21 @@ def gen_frame_ops(rng, na, nf, thorough):
         wr = rng.random() < 0.6
         ops = [['newarr', h, w, c, wr, pix, rng.choice([False, False, False, False, True, 2, 2])], ['frame_arr', na, darg, farg]]
         return ops, 'array-%s%s' % ('rw' if wr else 'ro', '-permuted' if ops[0][6] == 2 else '-strided' if ops[0][6] else ''), 1, 1, smooth
-    base = [['newarr', h, w, c, True, pix, False]]
+    cb, sfx = c, ''
+    if kind in ('jpg-lazy', 'jpg-decoded', 'jpg-eager') and rng.random() < 0.25:
+        # the JPEG holds a different number of components than the declared format has channels: a grayscale JPEG handed in
+        # as BGR / RGB (an upload through the REST filter), a colour one declared GRAY; the decoder converts
+        cb = 1 if c == 3 else 3
+        pix = gen_pixels(rng, h, w, cb, smooth)
+        sfx = '-components!=channels'
+    base = [['newarr', h, w, cb, True, pix, False]]
     jd = data if data or rng.random() < 0.5 else None
     if kind == 'jpg-lazy':
-        return base + [['from_jpg', ['enc', na], jd, [h, w], fmt]], kind, 1, 1, smooth
+        return base + [['from_jpg', ['enc', na], jd, [h, w], fmt]], kind + sfx, 1, 1, smooth
     if kind == 'jpg-decoded':
-        return base + [['from_jpg', ['enc', na], jd, [h, w], fmt], ['image', nf]], kind, 2, 1, smooth
+        return base + [['from_jpg', ['enc', na], jd, [h, w], fmt], ['image', nf]], kind + sfx, 2, 1, smooth
     if kind == 'jpg-eager':
-        return base + [['from_jpg', ['enc', na], jd, None, fmt]], kind, 2, 1, smooth
+        return base + [['from_jpg', ['enc', na], jd, None, fmt]], kind + sfx, 2, 1, smooth
     if kind == 'ro+jpg':
         return [['newarr', h, w, c, False, pix, False], ['frame_arr', na, darg, farg], ['jpg', nf]], kind, 1, 1, smooth
     # a converted / copied view of an array frame (cached or not)
@@ -180,6 +187,23 @@ def oracle(run, case, real):
             d = int(np.abs(gi.astype(int) - si.astype(int)).max())
             if (not real and d != 0) or (real and smooth(si) and d > JPEG_TOL):
                 run.violation(tag + 'roundtrip:jpg-tolerance ' + key, 'jpeg decodes %d levels away from the original' % d, case)
+    # second hop: the receiving filter edits the data of the frames it was handed IN PLACE and sends the same objects on - what
+    # the next filter gets is the edited data (nothing remembered from the first decode may be reused for the second encode)
+    if not real and out:
+        want2 = {}
+        for k, (t, f) in enumerate(out.items()):
+            if k % 2 == 0:
+                f.data['dets'] = [k, {'edited': True}]
+                for kk in list(f.data):
+                    if kk != 'dets' and isinstance(f.data[kk], dict):
+                        f.data[kk]['nested-edit'] = k
+                        break
+            want2[t] = json.loads(json.dumps(f.data))
+        out2 = MQ.topicmsgs2frames(MQ.frames2topicmsgs(out, oj))
+        for t, d in want2.items():
+            if t not in out2 or out2[t].data != d:
+                run.violation('second-hop:data %s outs_jpg=%r' % (t, oj), 'a frame received, edited in place (%r) and sent on arrived with data %r'
+                              % (d, out2[t].data if t in out2 else None), case)
     return canon
 
 def case_lit(sim, case):
